@@ -151,11 +151,30 @@ fn execute(p: &Program, ctx: &Context) -> Outcome {
     }
 }
 
+/// Values carried inside an execution error are "values previously obtained" too (they alias
+/// operands, possibly buffers of the context): the host may hold on to the error.
+fn value_in_error(e: &cel_interpreter::ExecutionError) -> Option<Value> {
+    use cel_interpreter::ExecutionError as E;
+    #[allow(unreachable_patterns)]
+    match e {
+        E::UnsupportedBinaryOperator(_, l, r) | E::ValuesNotComparable(l, r) | E::UnsupportedIndex(l, r) | E::IntegerOverflow(_, l, r) => {
+            Some(Value::List(Arc::new(vec![l.clone(), r.clone()])))
+        }
+        E::UnsupportedKeyType(v) | E::UnsupportedMapIndex(v) | E::UnsupportedListIndex(v) | E::UnsupportedUnaryOperator(_, v) | E::DivisionByZero(v) | E::RemainderByZero(v) => Some(v.clone()),
+        E::UnsupportedTargetType { target } | E::NotSupportedAsMethod { target, .. } => Some(target.clone()),
+        _ => None,
+    }
+}
+
 fn execute_keep(p: &Program, ctx: &Context) -> (Outcome, Option<Value>) {
     match catch_unwind(AssertUnwindSafe(|| p.execute(ctx))) {
         Ok(r) => {
             let o = Outcome::of(&r);
-            (o, r.ok())
+            let keep = match &r {
+                Ok(_) => None,
+                Err(e) => value_in_error(e),
+            };
+            (o, r.ok().or(keep))
         }
         Err(payload) => (Outcome::Panic(panic_text(payload)), None),
     }
